@@ -59,6 +59,7 @@ def position_in_message(msg):
     return None
 
 
+OPEN_SELF = 'corpus/C16/open/self-containing.ops'
 OUT_OPS = ('parse', 'parseok', 'parseg', 'str', 'rt', 'vdump', 'ent', 'parse2', 'pinto', 'rtinto', 'sparse', 'fload', 'fmiss', 'fsave', 'fsl')
 
 
@@ -446,6 +447,8 @@ def variant_history(r, n):
             ops.append('vassignsub %d %d %d' % (i, i if r.random() < 0.6 else j, r.randrange(3)))
         elif k < 0.97:
             ops.append('vassignsubm %d %d' % (i, r.randrange(3)))
+        elif k < 0.985:
+            ops.append('vsubassign %d %d %d' % (i, r.randrange(3), j if j != i else (i + 1) % ns))
         else:
             ops.append('vdel %d' % i)
         if r.random() < 0.35:
@@ -651,8 +654,8 @@ class C16(Check):
         if 'rt' in kinds:
             return sum(1 for l in case if l.split(' ')[0] in ('open', 'attr', 'text')) >= 3
         if 'vdump' in kinds:
-            return (any(l.startswith(('vcopy', 'vassign', 'velcopy', 'vchild', 'vsub ')) for l in case)    # vassign also matches vassignsub / vassignsubm
-                    and any(l.startswith(('vname', 'vattr', 'vsubmut', 'vsettext', 'vchild', 'vwriteheld')) for l in case))
+            return (any(l.startswith(('vcopy', 'vassign', 'velcopy', 'vchild', 'vsub ', 'vsubassign')) for l in case)    # vassign also matches vassignsub / vassignsubm
+                    and any(l.startswith(('vname', 'vattr', 'vsubmut', 'vsettext', 'vchild', 'vwriteheld', 'vsubassign')) for l in case))
         return False
 
     # -- generators ---------------------------------------------------------------------------
@@ -745,7 +748,8 @@ class C16(Check):
         act = [['vname 0 7a'], ['vattr 0 6b 76'], ['vchild 0 0'], ['vchild 0 1'], ['vsubmut 0 0 7a'], ['vsettext 0 7a'], ['vassign 0 0'], ['vassign 0 1'],
                ['vsub 0 0 0'], ['vdel 0'], ['vnull 0'], ['velcopy 0 0'], ['vcopy 0 0'], ['vsubmut 3 0 79'], ['vsub 1 3 0', 'vname 1 77'],
                ['vassignsub 0 0 0'], ['vassignsubm 0 0'], ['vdel 1', 'vassignsub 0 0 0'], ['vdel 1', 'vassignsubm 0 0'], ['vassignsub 1 0 0'], ['vassignsub 0 3 0'],
-               ['vassignsub 3 3 0'], ['vsub 1 0 0', 'vassign 1 0']]
+               ['vassignsub 3 3 0'], ['vsub 1 0 0', 'vassign 1 0'],
+               ['vsubassign 0 0 1'], ['vsubassign 0 0 3'], ['vsubassign 3 0 0'], ['vsubassign 1 0 0'], ['vsub 5 0 0', 'vsubassign 5 0 0'], ['vsubassign 0 0 2', 'vsubassign 0 0 1']]
         for a in mk:
             for b in share:
                 for c in act:
@@ -756,12 +760,14 @@ class C16(Check):
             chain = ['velem 0 61', 'velem 1 62', 'velem 2 63', 'vtext 3 74', 'vchild 2 3', 'vchild 1 2', 'vattr 1 6b 76', 'vchild 0 1'] + keep + ['vdel 1', 'vdel 2', 'vdel 3']
             for hoist in (['vassignsub 0 0 0'], ['vassignsubm 0 0'], ['vassignsub 0 0 0', 'vassignsub 0 0 0'], ['vassignsubm 0 0', 'vassignsubm 0 0', 'vassignsubm 0 0'],
                           ['vsub 5 0 0', 'vassignsub 5 5 0', 'vassignsub 0 5 0'], ['vcopy 5 0', 'vassignsubm 5 0', 'vassignsub 0 0 0'],
-                          ['vsub 5 0 0', 'vassign 5 0'], ['vsub 5 0 0', 'vassign 0 5']):
+                          ['vsub 5 0 0', 'vassign 5 0'], ['vsub 5 0 0', 'vassign 0 5'], ['vsub 5 0 0', 'vsubassign 5 0 0'], ['vcopy 5 0', 'vsubassign 0 0 5'],
+                          ['vsub 5 0 0', 'vsubassign 0 0 5', 'vdel 5'], ['vsub 5 0 0', 'vsub 5 5 0', 'vsubassign 0 0 5', 'vdel 5']):
                 cases.append(chain + ['vdump'] + hoist + ['vdump', 'vname 0 7a', 'vdump', 'vdel 0', 'vdump'])
         out.append(Stream('handles_directed', cases, exhaustive=True,
                           note='every combination of {element, text, null, element with element child, element with text child} x '
-                               '{unshared, copied once/twice, nested in another element, element copy, content item copied out} x 23 writes '
-                               '(incl. assignment of a Variant from its own content item, of a content item copied out from its ancestor); '
+                               '{unshared, copied once/twice, nested in another element, element copy, content item copied out} x 29 writes '
+                               '(incl. assignment of a Variant from its own content item, of a content item copied out from its ancestor, of a content item '
+                               'in place from another Variant - a copy, an ancestor, a descendant); '
                                'chains a(b(c(t))) hoisted once, twice, three times, inner blocks held by the chain alone or by another slot'))
 
         # 9b. a reference obtained from toElement() and kept by the caller (audit finding 3)
@@ -816,6 +822,21 @@ class C16(Check):
         out += self.streams_reuse(th, rng)
         out += self.streams_wide(th, rng)
         out += self.streams_accept(th, rng)
+        # the proposed open finding (a Variant assigned to a content item of its own element: reference cycle): its witness runs only
+        # while known_findings.json lists it as open, and then prints KNOWN-FINDING
+        if any(k.get('status') == 'open' and k.get('witness') == OPEN_SELF for k in self.known_findings()):
+            wc = []
+            cur = None
+            for line in open(os.path.join(os.path.dirname(os.path.abspath(__file__)), '..', OPEN_SELF)).read().split('\n'):
+                if line.startswith('case'):
+                    cur = []
+                elif line == 'end':
+                    if cur is not None:
+                        wc.append(cur)
+                    cur = None
+                elif cur is not None and line and not line.startswith('#'):
+                    cur.append(line)
+            out.append(Stream('self_containing_open', wc, note='open finding: <content item of v.toElement()> = v'))
         return out
 
     def streams_accept(self, th, rng):
@@ -1056,12 +1077,14 @@ C16.level_note = (
     'The flags "same answer as a fresh Parser / fresh Element / parse on the bytes of the file" (parse2, pinto, fload) compare result kind, line, column and the '
     'tree - not the message. The file API (fload / fmiss / fsave / fsl) is an EXTENSION beyond the property text, which names parse, toString and '
     'copies only: its failing inputs say so in their first words. pinto also prints the Element the target was copied from (it must still hold the tree). '
-    'Handles: vassignsub i j k is *slot[i] = <k-th content item of slot j> through operator= with a reference into slot j\'s element (the value step of VSub; '
+    'Handles: vsubassign i k j is <k-th content item of slot[i]->toElement()> = *slot[j] for j != i (op VSubAssign of spec, model and theorems: a content item assigned in '
+    'place from a copy, an ancestor or a descendant of its element); vassignsub i j k is *slot[i] = <k-th content item of slot j> through operator= with a reference into slot j\'s element (the value step of VSub; '
     'j = i: the right-hand side is released by the assignment), vassignsubm i k the same behind a mutable toElement() of slot i (driver: touch, then VSub i i k). '
     'NOT driven: assigning to a content item of an element the Variant that owns that element (Element& e = v.toElement(); e.content.front() = v;). The lazy copy '
     'stores a reference to the block inside the block itself: a reference cycle, Xml::toString(v.toElement()) then overflows the stack (observed on the unchanged '
     'tree) - the same design limitation as the open finding of C07 (a Variant stored into its own payload); value semantics would put a copy of the OLD value of v '
-    'there. The model\'s heap (children are older than their block) has no such state; proposed as an open known finding in reports/C16.md, no oracle claims it. '
+    'there. The model\'s heap (children are older than their block) has no such state; proposed as an open known finding in reports/C16.md (witness corpus/C16/open/self-containing.ops, op vsubassign!; the '
+    'stream self_containing_open runs it only while known_findings.json lists it as open), no oracle claims it otherwise. '
     'Scope of the spec oracle (what a failing input is claimed for): termination without a sanitizer report, success / failure where the spec names it '
     '(documents well formed by construction must be accepted), '
     'names / attributes / text / nesting after a round trip, the values of the slots after handle operations, and that a reported line and column are the '
